@@ -18,6 +18,7 @@ import (
 	"path/filepath"
 	"regexp"
 	"runtime"
+	"runtime/debug"
 	"runtime/metrics"
 	"sort"
 	"strings"
@@ -43,6 +44,7 @@ func TestMain(m *testing.M) {
 		os.Setenv("TMPDIR", scratch)
 	}
 	sort.Slice(targets, func(i, j int) bool { return targets[i].name < targets[j].name })
+	debug.SetGCPercent(300) // many short-lived MiB-sized buffers: collect less often (harness speed only)
 	code := R.Main(m)
 	if err == nil {
 		os.RemoveAll(scratch)
@@ -170,7 +172,7 @@ func run(tg *target, data []byte) (vs hx.Vs, inconclusive bool) {
 	elapsed := time.Since(start)
 	timer.Stop()
 	if elapsed > watchdog {
-		R.Note("inconclusive: target %s took %.1fs on a %d-byte input (watchdog %s); case not judged on resources", tg.name, elapsed.Seconds(), len(data), watchdog)
+		R.Note("inconclusive: target %s took %.1fs on a %d-byte input (watchdog %s); wall time is not an oracle, the case is judged on panic and allocation only", tg.name, elapsed.Seconds(), len(data), watchdog)
 		inconclusive = true
 	}
 	if !tg.noAlloc {
@@ -212,7 +214,7 @@ func Check(c Case) hx.Vs {
 
 const (
 	quickCases    = 500  // per target per shard (4 shards => 2 000)
-	thoroughCases = 4000 // per target per shard (16 shards)
+	thoroughCases = 3000 // per target per shard (16 shards)
 )
 
 // TestTargets runs every target over generated inputs. The targets run in child processes of the test
@@ -265,7 +267,8 @@ func TestTargets(t *testing.T) {
 				R.Note("inconclusive: child process died while evaluating a %d-byte case of %s but the case alone does not reproduce it: %s", len(c.Data), c.Target, tail(out, 600))
 			}
 			R.Seen(test, c, true, "fatal-confirmation")
-			R.Report(t, test, c, vs) // fails the test for a violation that is not an open known finding
+			// a subtest, so that the Fatalf of Report ends only it and the remaining targets still run
+			t.Run("fatal/"+c.Target, func(t *testing.T) { R.Report(t, test, c, vs) })
 			// continue behind the target that died
 			idx := -1
 			for i, n := range remaining {
@@ -299,7 +302,7 @@ func TestTargetsChild(t *testing.T) {
 			test := "TestTargets/" + tg.name
 			R.Rule(test, "classes arbitrary | hostile-constant | valid-prefix | edited-valid over the target's valid examples; non-trivial = input passes the decoder's first structural check")
 			hx.Checks(int(float64(quickCases)*tg.weight), int(float64(thoroughCases)*tg.weight))
-			flag.Set("rapid.shrinktime", "5s") // byte strings shrink quickly; the default 30 s per failing target is wasted on the unrepaired tree
+			flag.Set("rapid.shrinktime", "3s") // byte strings shrink quickly; the default 30 s per failing target is wasted on the unrepaired tree
 			rapid.Check(t, func(rt *rapid.T) {
 				c := genCase(rt, tg)
 				traceCase(c)
